@@ -192,5 +192,5 @@ func runSMInner(c *vt.C, s *SMScript, th Thr) (nontrivial bool, f *vt.Finding) {
 
 func TestStateMachine(t *testing.T) {
 	shrinkBudget("30s")
-	vt.Run(t, cSM, vt.N(3600, 80000), genSM, runSM)
+	vt.Run(t, cSM, vt.N(3000, 80000), genSM, runSM)
 }
